@@ -181,6 +181,8 @@ POSITIONS = {
     "INPUT target": "10 INPUT A$",
     "LINE INPUT target": "10 LINE INPUT A$",
     "implicit string array": '10 A$(1)="x"',
+    "arrays used before the line that DIMs them": "10 GOSUB 100:A(1)=1:B$(2)=\"x\":T(1,2)=3\n20 END\n100 DIM A(20),B$(20),T(4,6):RETURN",
+    "scalar string used before the line that DIMs it": "10 GOSUB 100:S$=\"x\"\n20 END\n100 DIM S$,N$(3):RETURN",
     "string name listed twice in one DIM": "10 DIM A$,B$,A$:A$=B$",
     "configured and plain string listed twice in one DIM": "10 DIM N$(2),B$,N$(2),B$:B$=N$(1)",
     "numeric name listed twice in one DIM": "10 DIM E,F,E:E=F",
@@ -197,6 +199,31 @@ POSITIONS = {
     "one DIM, only the middle name configured": '10 DIM A$(5),N$(7),C$(9),D$\n20 A$(1)="a":N$(1)="b":C$(1)="c":D$="d"',
     "one DIM, first and last name configured": '10 DIM N$(5),B$(7),E$,N$\n20 N$(1)="a":B$(1)="b":E$="e":N$="n"',
 }
+
+
+def configured_sizes():
+    """a configured size is the size of a DIMensioned string whatever its value - BASIC09's own default 32 included, below and above the
+    requested default; names that are configured but not DIMensioned in the source get the requested default (the property's wording)"""
+    def run():
+        res = []
+        src = "10 DIM A$,B$(5),C$,D$\n20 E$=A$+C$:F$(1)=E$\n"
+        for default in (80, 32, 16):
+            for sizes in ({"A$": 32, "B$()": 32, "C$": 100, "E$": 32, "F$()": 32}, {"A$": 31, "B$()": 33, "C$": 1, "E$": 255, "F$()": 256}, {"A$": default, "B$()": default}):
+                text = convert(src, default_str_storage=default, compiler_configs=CompilerConfigs(string_configs=StringConfigs(strname_to_size=dict(sizes))), add_standard_prefix=False)
+                decl = declared(text)
+                problems = []
+                for ident in ("A$", "arr_B$", "C$", "D$", "E$", "arr_F$"):
+                    key = ident if not ident.startswith("arr_") else ident[4:] + "()"
+                    want = sizes.get(key, default) if ident in ("A$", "arr_B$", "C$", "D$") else default     # the property: configured AND DIMensioned in the source
+                    got = decl.get(ident)
+                    size = got[0][1] if got else None
+                    if not got and want != 32:
+                        problems.append("%s never declared (so 32 bytes), %d configured" % (ident, want))
+                    elif got and (size if size is not None else 32) != want:
+                        problems.append("%s declared with %s bytes, %d configured" % (ident, size if size is not None else "BASIC09's 32", want))
+                res.append(ob("configured/default=%d,sizes=%s" % (default, sorted(sizes.items())), not problems, "every DIMensioned string has its configured size, every other string the requested default", problems or "ok", src))
+        return res
+    return guarded("configured", run)
 
 
 def positions():
@@ -234,5 +261,5 @@ def obligations():
     # the requested size reaches the library through `string<<>>`: a sized string handed on inside the library keeps it
     from tx.p_c14 import sized_strings_stay_sized
     from tx import p_c09, p_c13
-    return dim_contract() + pass_steps() + positions() + sized_strings_stay_sized() + __import__("tx.p_c05", fromlist=["share"]).share("once/", p_c09.kinds_in_declarations()) + __import__("tx.p_c05", fromlist=["share"]).share(
+    return dim_contract() + pass_steps() + positions() + configured_sizes() + sized_strings_stay_sized() + __import__("tx.p_c05", fromlist=["share"]).share("once/", p_c09.kinds_in_declarations()) + __import__("tx.p_c05", fromlist=["share"]).share(
         "bundled/", [o for o in p_c13.regex_contracts() if "STR_STORAGE_TAG" in o["id"]] + p_c13.requested_size_reaches_bundle())
